@@ -11,3 +11,6 @@ import CantoVerif.Proofs.CoinswapArith
 import CantoVerif.Proofs.CoinswapEffects
 import CantoVerif.Proofs.CoinswapWF
 import CantoVerif.Props.C01
+import CantoVerif.Model.Csr
+import CantoVerif.Spec.Csr
+import CantoVerif.Driver.Csr
